@@ -591,55 +591,78 @@ def scenTx (toks : List String) (obs : String) : Verdict :=
         | _, _, _ => .prop "C14" "bytes on the device or the results differ from the byte-exact wire image" a
       | _ => .prop "C14" "bytes/frames on the device or the results differ from the byte-exact wire image" a
 
-/-- `psend <link> <own> <packet> <responses> [flush answers]`: `send_packet` over a real link sender (C16 composed with
-C14): own-address packets go to the local handler once and not to the link (unless the own address is broadcast);
-everything else goes to the link byte-exact under back-pressure and to no local handler -/
+/-- `psend <link> <own> <p1+p2+…> <responses> [flush answers]`: `send_packet` for each packet in turn over a real link
+sender (C16 composed with C14): own-address packets go to the local handler once and not to the link (unless the own
+address is broadcast); everything else goes to the link byte-exact under back-pressure and to no local handler -/
 def scenPsend (toks : List String) (obs : String) : Verdict :=
   match toks with
   | link :: owns :: ps :: rs :: rest =>
-    match parseHexNat owns, parsePacket ps with
-    | some own, some p =>
+    match parseHexNat owns, (ps.splitOn "+").mapM parsePacket with
+    | some own, some pkts =>
       let own := UInt16.ofNat own
-      let isLocal := p.addr == own
-      let toLink := !isLocal || own == BROADCAST
-      let h := if isLocal then " h1" else " h0"
+      let isLocal (p : Packet) : Bool := p.addr == own
+      let toLink (p : Packet) : Bool := !isLocal p || own == BROADCAST
+      let routed := pkts.filter toLink
+      let h := " h" ++ toString (pkts.filter isLocal).length
+      -- per packet: the link's result for the routed ones (in order), `ok` for the ones that stay local
+      let weave (linkRes : List String) : List String :=
+        (pkts.foldl (fun (acc : List String × List String) p =>
+          if toLink p then (acc.1 ++ [acc.2.headD "?"], acc.2.tail) else (acc.1 ++ ["ok"], acc.2)) ([], linkRes)).1
       let ans : Option String :=
-        if !toLink then
-          pure ((if link == "serial" then "-/f0" else "-") ++ " ok" ++ h)
-        else if link == "usart" then do
+        if link == "usart" then do
           let r ← parseWResps rs
-          let us ← bodiesOf p
-          pure (showLogBytes (usartSendMany [us] r) ++ " ok" ++ h)
+          let uss ← routed.mapM bodiesOf
+          pure ((if routed.isEmpty then "-" else showLogBytes (usartSendMany uss r)) ++ " " ++
+            String.intercalate "," (weave (routed.map fun _ => "ok")) ++ h)
         else if link == "can" then do
           let r ← parseTxResps rs
-          let cs ← canOf p
-          let (log, res) := canSendMany [cs] r
-          pure (showCanLog log ++ " " ++ showSendResults res ++ h)
+          let css ← routed.mapM canOf
+          let (log, res) := canSendMany css r
+          pure (showCanLog log ++ " " ++ String.intercalate "," (weave (res.map showSendRes)) ++ h)
         else do
           let r ← parseIoResps rs
-          let us ← bodiesOf p
-          let (w, n, res) := serialSendMany [us] r (parseFlushes (rest.headD "o"))
-          pure (showSerialLog w ++ "/f" ++ toString n ++ " " ++ showSendResults res ++ h)
+          let uss ← routed.mapM bodiesOf
+          let (w, n, res) := serialSendMany uss r (parseFlushes (rest.headD "o"))
+          let rec cum (uss : List (List (List UInt8))) (rs : List IoResp) (acc : Nat) : List Nat :=
+            match uss with
+            | [] => []
+            | us :: t => let (w1, _, rs') := serialSendFrames us rs; (acc + w1.length) :: cum t rs' (acc + w1.length)
+          let lens := cum uss r 0
+          -- local-only packets report the log length unchanged
+          let linkRes := (res.zip lens).map fun (x, l) => showSendRes x ++ "@" ++ toString l
+          let woven := (pkts.foldl (fun (acc : List String × List String × Nat) p =>
+            if toLink p then
+              let x := acc.2.1.headD "?"
+              let l := (((x.splitOn "@").getD 1 "0").toNat?).getD acc.2.2
+              (acc.1 ++ [x], acc.2.1.tail, l)
+            else (acc.1 ++ ["ok@" ++ toString acc.2.2], acc.2.1, acc.2.2)) ([], linkRes, 0)).1
+          pure (showSerialLog w ++ "/f" ++ toString n ++ " " ++ String.intercalate "," woven ++ h)
       match ans with
       | none => .bad "parse"
       | some a =>
         if a == obs then .ok
         else
-          -- routing (local handler calls, on the link or not) is C16; the bytes on the link are C14 as well
-          let routeOf (o : String) : String × Bool :=
-            (((o.splitOn " ").getLast?).getD "", (o.startsWith "-/f0 " || o.startsWith "- "))
-          if routeOf a != routeOf obs then .prop "C16" "a sent packet is not routed to local handlers / the link as addressed" a
+          -- routing (local handler calls; nothing on the link when nothing is routed) is C16 alone
+          let hOf (o : String) : String := ((o.splitOn " ").getLast?).getD ""
+          let emptyLog (o : String) : Bool := o.startsWith "-/f0 " || o.startsWith "- "
+          if hOf a != hOf obs || (routed.isEmpty && !emptyLog obs) then
+            .prop "C16" "a sent packet is not routed to local handlers / the link as addressed" a
           else
             -- serial port: evaluate the predicate on the implementation's own answer (see `scenTx`)
             let viaPredicate : Option Verdict :=
               if link != "serial" then none else
-              match obs.splitOn " ", parseIoResps rs, bodiesOf p with
-              | [logf, result, _], some r, some us =>
+              match obs.splitOn " ", parseIoResps rs, routed.mapM bodiesOf with
+              | [logf, results, _], some r, some uss =>
                 (match logf.splitOn "/f" with
                   | [logHex, nfl] =>
                     if logHex.startsWith "#" then none else
                     (parseBytes logHex).map fun log =>
-                      match serialC14 [wireOf us] r (rest.headD "o") log (nfl.toNat?.getD 0) [result] with
+                      -- the results of the routed packets only
+                      let resAll := results.splitOn ","
+                      let routedRes := ((pkts.zip resAll).filter fun (p, _) => toLink p).map (·.2)
+                      let localOk := ((pkts.zip resAll).filter fun (p, _) => !toLink p).all fun (_, x) => x.startsWith "ok"
+                      if !localOk then .prop "C16" "a looped-back send did not return Ok" a else
+                      match serialC14 (uss.map wireOf) r (rest.headD "o") log (nfl.toNat?.getD 0) routedRes with
                       | some clause => .prop "C16,C14" clause a
                       | none => .note "serial sender meets the device's answers at other write calls (log and results still satisfy C14)"
                   | _ => none)
